@@ -94,6 +94,7 @@ def cross_check_cvc5(solver, timeout_s=120):
     try:
         r = subprocess.run([exe, '--lang', 'smt2', f'--tlimit={timeout_s * 1000}', path], stdout=subprocess.PIPE, stderr=subprocess.PIPE, text=True, timeout=timeout_s + 30)
         out = (r.stdout + r.stderr).strip()
+        if 'Parse Error' in out: return 'not parsed by cvc5: ' + out[:120]
         if '(error' in out: return 'error: ' + out[:200]
         first = out.split('\n')[0].strip() if out else 'no answer'
         return first if first in ('sat', 'unsat', 'unknown') else ('timeout' if 'interrupted' in out or 'timeout' in out else 'no answer: ' + out[:120])
